@@ -176,6 +176,8 @@ static Tok gen_ident() {
   std::string s;
   if (vf::chance(15)) s = vf::oneof<std::string>({"truex", "falsey", "nilly", "info", "nowhere", "immediately_", "MIDIx", "BLOBx", "M", "B", "x1", "t", "f", "n", "i", "e5", "x"});
   else { s += F[(size_t)vf::pickn((int)F.size())]; int n = vf::sized<int>(0, 10); for (int i = 0; i < n; i++) s += R[(size_t)vf::pickn((int)R.size())]; }
+  // a generated identifier that spells a reserved word denotes that word, not a symbol (seed sweep, VERIF_SEED=10: "inf")
+  for (const char *w : {"true", "false", "nil", "inf", "now", "immediately", "MIDI", "BLOB"}) if (s == w) s += "_";
   return one(s, mks('S', s), "S.identifier");
 }
 static Tok gen_keyword() {
@@ -309,6 +311,20 @@ static Tok gen_range(bool with_a, char want = 0) {
   tk.kind = with_a ? "range.a_b_c" : "range.b_c";
   return tk;
 }
+// numbers counting up or down written out one by one (the printer will compress them), optionally behind another number of the same type
+static Tok gen_run(char want = 0) {
+  char t = want ? want : "ihc"[vf::pickn(3)];
+  V s = mk(t), d = mk(t);
+  s.i = t == 'c' ? vf::pick<int>(60, 90) : vf::pick<int>(-50, 50);
+  d.i = vf::chance(70) ? (vf::coin() ? 1 : -1) : vf::oneof<int>({2, -2, 3, 0});
+  int n = vf::pick<int>(3, 9);
+  Tok tk;
+  if (vf::chance(60)) { V lead = mk(t); lead.i = s.i + vf::oneof<int>({-6, -3, -2, -1, 0, 1, 2, 5, 40}) ; if (t == 'c' && (lead.i < 33 || lead.i > 126)) lead.i = 'A'; tk.parts.push_back(spell(lead)); tk.vals.push_back(lead); }
+  for (int k = 0; k < n; k++) { V v = avg::nth(s, d, k); tk.parts.push_back(spell(v)); tk.vals.push_back(v); }
+  tk.first = tk.last = t;
+  tk.kind = "plain.run";
+  return tk;
+}
 static Tok gen_array();
 static Tok gen_repeat(bool allow_array, const char *eltypes = "iihfdcsSKmbr") {
   int n = vf::chance(75) ? vf::pick<int>(1, 6) : vf::oneof<int>({10, 12, 20, 30, 100, 101, 9, 19});
@@ -330,7 +346,7 @@ static Tok gen_array() {
   t.parts = {"["};
   int n = vf::sized<int>(0, 6);
   char lasttype = 0;
-  bool last_range = false;
+  bool last_range = false, dots_inside = false;
   std::string kind = "array";
   for (int i = 0; i < n; i++) {
     Tok e;
@@ -340,6 +356,12 @@ static Tok gen_array() {
       // finite range inside the array; the previous element would be taken as 'a', so only directly after '[' or with explicit a
       e = gen_range(true, et[0]);
       kind = "array.with_range";
+      dots_inside = true;
+    } else if (k == 2 && (et == "i" || et == "h" || et == "c") && !last_range) {
+      // numbers counting up/down written out one by one: the printer compresses them (possibly two runs side by side)
+      e = gen_run(et[0]);
+      kind = "array.with_run";
+      dots_inside = true;
     } else if (k == 1) {
       if (et == "K") { e = vf::coin() ? one("true", mk('T'), "T") : one("false", mk('F'), "F"); int rn = vf::chance(75) ? vf::pick<int>(1, 6) : vf::oneof<int>({10, 20, 100}); e.parts[0] = std::to_string(rn) + "x" + e.parts[0]; V v0 = e.vals[0]; e.vals.assign((size_t)rn, v0); e.range = true; e.kind = "repeat." + e.kind; }
       else e = gen_repeat(false, et.c_str());
@@ -411,6 +433,7 @@ Case vf_generate() {
     else if (k == 1) t = gen_range(false);
     else if (k <= 3) t = gen_repeat(true);
     else if (k <= 5) t = gen_array();
+    else if (k == 6) t = gen_run();
     else t = gen_plain(PLAIN);
     // adjacency rules from the manual: a range's 'a' is whatever same-type value precedes 'b';
     // ranges may not overlap. Keep a differently typed token between a range and same-type numbers.
@@ -426,6 +449,11 @@ Case vf_generate() {
       if (dots) { vf::G().ctx.count("excluded.ellipsis-lookbehind"); continue; }
     }
     if (prev_range && numeric && prev == t.first) continue;
+    if (!c.toks.empty() && vf::known("ellipsis-lookbehind")) {
+      // the same finding through the printer: a written-out run is printed as 'b ... c'; keep it away from anything whose printed form has an ellipsis
+      auto dotty = [](const Tok &k) { if (k.range || k.kind == "plain.run" || k.kind.rfind("array", 0) == 0 || k.kind.rfind("repeat", 0) == 0) return true; for (auto &p : k.parts) if (p.find("...") != std::string::npos) return true; return false; };
+      if ((t.kind == "plain.run" && dotty(c.toks.back())) || (c.toks.back().kind == "plain.run" && dotty(t))) { vf::G().ctx.count("excluded.ellipsis-lookbehind"); continue; }
+    }
     c.toks.push_back(t);
   }
   for (size_t i = 0; i < c.toks.size(); i++) {
